@@ -131,6 +131,9 @@ void LLVMVisitor::init(const vec_basic &inputs, const vec_basic &outputs,
     llvm::InitializeNativeTargetAsmParser();
     context = make_unique<llvm::LLVMContext>();
     symbols = inputs;
+    // a previous init() that threw left pointers into its destroyed module
+    symbol_ptrs.clear();
+    replacement_symbol_ptrs.clear();
 
     // Create some module to put our function into it.
     std::unique_ptr<llvm::Module> module
